@@ -84,6 +84,19 @@ def pieces(lang):
     return common + extra
 
 
+def clean_pieces(lang):
+    """pieces that lex without error in the given language (so that soups of them reach the parser)"""
+    bad = {b"1a", b"0x1", b"#1A2B3C4D", b"#123", b"#123456789", b"#zz", b"#_", b"//\xff\n", b"//a\xc3", b"/*", b"/", b"/ /", b"@Read", b"@", b"@1",
+           b"@_", b"\r", b"\x00", b"\x7f", b"\x80", b"\xff", b"$", b"\"", b"'", b"\\", b"~", b"^", b"&", b"`", b"\xd0\xb0", b"\xef\xbb\xbf",
+           b"\x0b", b"\x0c", b"Ns.foo", b"_1", b"__"}
+    if lang == 1:
+        bad |= {b"|", b"_", b"_a", b"_A", b"| A x:int", b"= A | B;"}
+    else:
+        bad |= {b"(", b")", b"{", b"}", b"!", b"+", b"*", b"%", b"---types---", b"---functions---", b"<n:#>"} | {
+            x for x in pieces(lang) if any(c in x for c in b"(){}!+*%")}
+    return [x for x in pieces(lang) if x not in bad]
+
+
 # --------------------------------------------------------------------------- grammar-based valid-ish inputs
 
 def gen_tl1(rng, depth=0):
@@ -152,7 +165,7 @@ def gen_tl2(rng):
 
     def field():
         n = rng.choice(var)
-        return n + ("?" if rng.random() < 0.2 else "") + ":" + typ(0)
+        return n + ("?" if rng.random() < (0.02 if n.startswith("_") else 0.2) else "") + ":" + typ(0)
 
     out = ""
     for _ in range(rng.randrange(0, 2)):
@@ -263,6 +276,11 @@ def gen_inputs(ctx, lang):
         n = rng.randrange(1, 25)
         sep = rng.choice([b"", b"", b" ", b"\n"])
         add("token-soup", sep.join(rng.choice(pcs) for _ in range(n)))
+    cpcs = clean_pieces(lang)
+    for _ in range(5000 * scale):
+        n = rng.randrange(1, 25)
+        sep = rng.choice([b" ", b" ", b"\n", b""])
+        add("clean-token-soup", sep.join(rng.choice(cpcs) for _ in range(n)), (0, 0))
     # grammar-generated declarations and their mutations
     gen = gen_tl1 if lang == 1 else gen_tl2
     for _ in range(1500 * scale):
